@@ -150,7 +150,9 @@ func (g *gen) opCreate(ls map[string]string) (string, int) {
 		start = "-"
 	}
 	end := silx.I64(g.now + int64(r.IntN(6))*grid)
-	return silx.SetLine("set", 0, g.now, "-", start, end, silx.Comment(r), g.catalogFor(ls), false), 2
+	sets := g.catalogFor(ls)
+	g.addPanel(silx.BothSides(r, sets), 2) // label sets on both sides of one of its matchers
+	return silx.SetLine("set", 0, g.now, "-", start, end, silx.Comment(r), sets, false), 2
 }
 
 func (g *gen) opEdit() (string, int) {
@@ -165,7 +167,10 @@ func (g *gen) opEdit() (string, int) {
 		// minimal variation of the stored matcher sets: never updatable in place
 		v, kind := silx.VaryAny(r, sets)
 		if kind != "" {
-			g.addPanel(silx.Discriminators(sets, v), 2)
+			d := silx.Discriminators(sets, v)
+			r.Shuffle(len(d), func(i, j int) { d[i], d[j] = d[j], d[i] })
+			g.addPanel(d, 2)
+			g.addPanel(silx.BothSides(r, v), 2)
 			sets = v
 		}
 	case x < 5:
